@@ -206,6 +206,19 @@ def followups_for(spec_unit):
         "unit-simplify": lambda x: (x.units / x.units).simplify(),
         "sum": lambda x: np.sum(x),
         "concatenate": lambda x: np.concatenate([np.atleast_1d(x), np.atleast_1d(x)]),
+        # units PARSED AFTER the hop from the restored registry's table (not the unit object that travelled with the data):
+        # the guards (angle, temperature, logarithmic) must see them exactly as in the original registry
+        "to-alt-then-mul2": lambda x: x.to(alt) * 2.0,
+        "to-alt-then-rmul2": lambda x: 2.0 * x.to(alt),
+        "to-alt-then-sub-self": lambda x: x.to(alt) - x.to(alt),
+        "to-alt-then-add-self": lambda x: x.to(alt) + x.to(alt),
+        "to-alt-then-sin": lambda x: np.sin(x.to(alt)),
+        "to-alt-then-pow2": lambda x: x.to(alt) ** 2,
+        "to-alt-then-diff": lambda x: np.diff(np.atleast_1d(x.to(alt))),
+        "to-alt-then-ptp": lambda x: np.ptp(np.atleast_1d(x.to(alt))),
+        "reparse-own-name-then-mul2": lambda x: rebuild(x, str(x.units), reg_of(x)) * 2.0,
+        "reparse-own-name-then-sin": lambda x: np.sin(rebuild(x, str(x.units), reg_of(x))),
+        "reparse-own-name-then-sub-self": lambda x: rebuild(x, str(x.units), reg_of(x)) - rebuild(x, str(x.units), reg_of(x)),
     }
     return f
 
